@@ -79,11 +79,12 @@ B("B60", "C14-R1", [(SD, '''            # Attractor data computed while the node
             node["attractor_sets"] = None
 
             skip_edges = 0''', '''            skip_edges = 0''')], "skip_remaining: reset removed")
-B("B61", "C14-R1", [(SCC, '''    if not sd.node_data(attach_at)["expanded"]:
-        # Data computed while the node had no successors is no longer valid.
-        sd.node_data(attach_at)["attractor_seeds"] = None''', '''    if sd.node_data(attach_at)["expanded"]:
-        # Data computed while the node had no successors is no longer valid.
-        sd.node_data(attach_at)["attractor_seeds"] = None''')], "attach: reset guarded by the wrong polarity")
+B("B61", "C14-R1", [(SCC, '''    if not sd.node_data(attach_at)["expanded"] or sd.node_data(attach_at)["skipped"]:
+        # Data computed''', '''    if sd.node_data(attach_at)["expanded"]:
+        # Data computed''')], "attach: reset guarded by the wrong polarity")
+B("B61b", "C14-R1", [(SCC, '''    if not sd.node_data(attach_at)["expanded"] or sd.node_data(attach_at)["skipped"]:
+        # Data computed''', '''    if not sd.node_data(attach_at)["expanded"] and sd.node_data(attach_at)["skipped"]:
+        # Data computed''')], "attach: reset only for nodes that are unexpanded AND skipped (never)")
 
 # ------------------------------------------------------------------------------------------ benign
 V("V02", "ast.unparse round trip of every module (formatting, comments, quotes)", transform="unparse_all")
@@ -538,7 +539,30 @@ B("B304", ["C15-E5"], [(SD, """        if len(current_space) == self.network.var
                         """        if len(current_space) >= self.network.variable_count() - 1:""")],
   "_expand_one_node: 'fixed point' shortcut also taken with one free variable")
 
-MANUAL_REVERTS = {"f087faa"}
+MANUAL_REVERTS = {"f087faa", "e9488dc"}
+# F2 (e9488dc) put resets at five sites; F23 (b558168) later widened the guard of two of them, so the patch no longer reverts
+B("R-F2", "C14-R1", [(SCC, '''            if (
+                not sd.node_data(main_node_id)["expanded"]
+                or sd.node_data(main_node_id)["skipped"]
+            ):
+                # Data computed while the node had no successors (or only the
+                # successors of a skip node) is no longer valid.
+                sd.node_data(main_node_id)["attractor_seeds"] = None
+                sd.node_data(main_node_id)["attractor_candidates"] = None
+                sd.node_data(main_node_id)["attractor_sets"] = None
+''', ""), (SCC, '''    if not sd.node_data(attach_at)["expanded"] or sd.node_data(attach_at)["skipped"]:
+        # Data computed while the node had no successors (or only the
+        # successors of a skip node) is no longer valid.
+        sd.node_data(attach_at)["attractor_seeds"] = None
+        sd.node_data(attach_at)["attractor_candidates"] = None
+        sd.node_data(attach_at)["attractor_sets"] = None
+''', ""), (SD, '''            # Attractor data computed while the node had no successors is no longer valid.
+            node["attractor_seeds"] = None
+            node["attractor_candidates"] = None
+            node["attractor_sets"] = None
+
+            skip_edges = 0''', '''            skip_edges = 0''')],
+  "F2 re-introduced: no reset where skip edges / sub-diagrams are attached")
 B("R-F5", "C08-K1", [(CAND, '''    if not greedy_asp_minification or len(node_nfvs) == 0:''', '''    if len(retained_set) == sd.network.variable_count() and node_is_pseudo_minimal:
         return [retained_set | node_space]
 
